@@ -58,6 +58,9 @@ class Bench:
     self.tr = gen.training(rng, name, X=X, y=y)
     if gen.KIND[name] == 'reg':
       self.tr['fit_args'] = (X, np.round(self.tr['yreg'] * 4) / 4)
+    if gen.KIND[name] == 'chunks':
+      # both chunk layouts: some points outside every chunklet (label -1) / every point in a chunklet
+      self.tr['fit_args'] = (X, gen.chunks_from(rng, y, with_unknown=bool(seed % 2)))
     self.X = X
     self.d = d
     self.store = X
